@@ -14,7 +14,7 @@ var known = ev.Matcher[Case]{}
 
 const rule = "histories of 2-5 migration files after a fixed init file, each file = 1-3 schema evolution steps over a table model (add/drop table, add/drop plain column, add/drop VIRTUAL generated column, add/drop index, " +
 	"manual table rebuild omitting a column, manual rebuild keeping all columns, scratch table created and dropped in the same file, column added and dropped in the same file, pre-existing column dropped and re-added under the same name, pre-existing table dropped and re-created); each file is authored either by the real `atlas migrate diff` " +
-	"(Atlas' own SQL incl. its rebuild procedure) or as hand-written equivalent SQL; then `atlas migrate lint --dev-url sqlite://dev?mode=memory --latest N --format '{{ json . }}'` for every N. " +
+	"(Atlas' own SQL incl. its rebuild procedure) or as hand-written equivalent SQL; then `atlas migrate lint --dev-url sqlite://dev?mode=memory --latest N --format '{{ json . }}'` for every N up to the whole directory (init file included: empty base). Hand-written files are padded with 2-14 `SELECT 1` statements a third of the time (files longer than ten statements take another loader path). " +
 	"Oracle: per file in the window the multiset of DS1xx diagnostics (code, object) equals the model's (a table or non-virtual column that existed before the file disappears => DS102/DS103; nothing for additive, virtual, index or same-file temporary objects); " +
 	"each Pos lies inside the statement (or rebuild group) of that table; exit status non-zero iff the window holds a destructive file. " +
 	"non-trivial = window with >=1 destructive file or >=1 rebuild; distinct key = (authoring routes, step kinds, N)"
@@ -44,6 +44,9 @@ func genCase(t *rapid.T) Case {
 			used[s.Table] = true
 			f.Steps = append(f.Steps, s)
 		}
+		if f.Route == "hand" && rapid.IntRange(0, 2).Draw(t, "padded") == 0 {
+			f.Pad = rapid.SampledFrom([]int{2, 9, 10, 11, 14}).Draw(t, "pad")
+		}
 		if len(f.Steps) > 0 {
 			c.Files = append(c.Files, f)
 		}
@@ -64,6 +67,9 @@ func TestCheck(t *testing.T) {
 			col.Class(fi.Route + "/" + cls)
 			if fi.Rebuild {
 				col.Class(fi.Route + "/rebuild")
+			}
+			if fi.Padded {
+				col.Class(fi.Route + "/" + cls + "/padded-with-selects")
 			}
 			for _, k := range fi.Kinds {
 				col.Class("step/" + k)
